@@ -244,7 +244,7 @@ func (w *kworld) doBatch(task string, n int, ring *gmsl.KeyRing, nfetch int) {
 	now := time.Now()
 	nreq := t.Range(1, 6)
 	wide := false
-	if t.Chance(15) { // worker-count boundary of DirectKeyFetcher (64)
+	if t.Chance(25) { // worker-count boundary of DirectKeyFetcher (64)
 		// ... and of two pool-fuls (a queue of 64 behind 64 workers)
 		nreq = sim.Pick(t, []int{63, 64, 65, 70, 64, 65, 127, 128, 129, 140, 200})
 		wide = true
@@ -292,7 +292,38 @@ func (w *kworld) doBatch(task string, n int, ring *gmsl.KeyRing, nfetch int) {
 	res, err := ring.VerifyJSONs(ctx, reqs)
 	end := time.Now()
 	w.r.Op()
+	w.checkGrants(rec)
 	w.checkCall(rec, infos, reqs, res, err, end, nfetch)
+}
+
+// checkGrants: what one server is given may not depend on how many other
+// servers are in the batch or on which worker it lands. For a caller that
+// never cancels, a key request whose context ran out (before it went out, or
+// while the server took `lat` to answer) although it was granted less than
+// another request of the same kind in the same call, and although both `lat`
+// and the time it really waited lie below that other grant, has been starved
+// by its neighbours: a sequential execution would have fetched that server's keys.
+// (No timeout value is assumed; requests are compared with one another.)
+func (w *kworld) checkGrants(rec *callRec) {
+	if rec.cancellable {
+		return
+	}
+	rec.mu.Lock()
+	gs := append([]grant{}, rec.grants...)
+	rec.mu.Unlock()
+	most := map[string]time.Duration{}
+	for _, g := range gs {
+		if g.bounded && g.given > most[g.kind] {
+			most[g.kind] = g.given
+		}
+	}
+	for _, g := range gs {
+		if g.expired && g.bounded && g.given < most[g.kind] && g.lat < most[g.kind] && g.waited < most[g.kind] {
+			w.r.Probe("key_request_starved_by_its_batch")
+			w.r.Violate("C19", "fetchkeys", "deadline_shared_between_servers", "the %s request for %s was given %v (its server answers in %v) while another request of the same call was given %v: its keys are missing from the union only because of the other servers in the batch", g.kind, g.server, g.given, g.lat, most[g.kind])
+			return
+		}
+	}
 }
 
 func (w *kworld) wideServer(i int) *world.Server {
